@@ -4,17 +4,20 @@ from .mir import callee, callee_matches, Prov
 from .ctx import where_of
 
 EXPLANATION = (
-    "Shape rules on eval_expression / apply_* / LexicalScope read from MIR: (scope-capture) a lambda captures the "
-    "environment it is evaluated in by Rc::clone, never a copy; (scope-extend) a user procedure's body runs in a "
-    "new child of the frame stored in the *closure being applied*, never of the caller's environment, and formals, "
-    "internal definitions and body all use that child; (innermost) LexicalScope::get consults the own frame first "
-    "and the parent only on a miss, define writes only the own frame; (truthiness) as_boolean is false exactly on "
-    "Boolean(false) and each of the Conditional evaluators branches on as_boolean of the evaluated *test*, evaluating "
-    "the consequent on true and the alternative on false; (once) operator and operands are each evaluated by exactly "
-    "one call outside any loop before the application; (defs-first) internal definitions are established before any "
-    "body expression; (dispatch) every ExpressionBody / DatumBody variant has a handler and the tail evaluator's "
-    "fallback forwards to eval_expression; (apply-spread) the apply builtin passes leading arguments plus the "
-    "elements of its last argument through apply_procedure.")
+    "Decision tables extracted by abstract interpretation of the evaluator's MIR over opaque sub-forms and values "
+    '(no execution; engine/rules/machine.py): (scope-capture) a lambda evaluates to a closure holding the '
+    'environment it was evaluated in, shared, not copied; (once) for (OP A1 A2 A3) each sub-form is evaluated '
+    "exactly once in the caller's environment and OP's value is applied once to the operand values in order; "
+    '(scope-extend, defs-first) for fixed / rest / empty parameter lists and 0-3 arguments an application creates '
+    "exactly one frame whose parent is the closure's captured environment, binds parameters and the rest list "
+    'there, establishes internal definitions before the body and evaluates the last body form in tail position; '
+    '(truthiness) as_boolean is false exactly on Boolean(false) and both evaluators run the test once and then '
+    'exactly the selected arm in the same environment; (innermost) on a three-frame chain with every subset of '
+    'frames binding the name, get / get_mut find the innermost binding and define writes only the own frame; '
+    '(dispatch) every ExpressionBody / DatumBody variant has a handler and the tail evaluator agrees with '
+    'eval_expression on non-tail forms; (apply-spread) the apply builtin passes leading arguments plus the '
+    'elements of its last argument through apply_procedure.  Shape-bound formulations of the same rules are kept '
+    'only as fallbacks that can yield UNDECIDED, never a violation.')
 NOT_DECIDED = "the value of arbitrary programs (semantics of a Turing-complete evaluator); order of operand evaluation."
 
 INTERP = "interpreter::interpreter::Interpreter::"
